@@ -78,7 +78,7 @@ def run(ctx):
                                            "impl_carrier": got, "carrier": {"time": tc},
                                            "clause": f"flags differ when the (fractional) times are given as {tc}"})
     return adapters.merge(
-        [r1, r2, r3],
+        [r1, r2, r3, cc.carrier_block(ad, dom, tier, rng), cc.reuse_block(ad, dom, tier, rng)],
         rule="series n<=5 over {missing,0,1,3} on regular (1 s, 60 s) and irregular axes x check types x test_period in "
              "{None, 1,2,3 steps} x min_obs x min_period x thresholds on both sides (fail>suspect included), random longer "
              "series, bad check_type; implementation vs model on the domain, and vs the specification on the "
